@@ -4,7 +4,7 @@ from ..dispatch import arm_of
 from . import common as C
 
 META = {
-    "explanation": "R5 contract W4: under -depth the depth-0 entry is held back until the walker is exhausted (walkdir yields a followed root link before its contents); R1 dispatch-table rows: -depth/-d/-delete set Config.depth_first=true, nothing else writes it (field writers), WalkDir::contents_first receives it; -sorted sets sorted_output and installs sort_by(a.file_name().cmp(b.file_name())) under it; "
+    "explanation": "R5 contract W7: below a root link followed only under -H walkdir releases the first depth-1 directory last (known finding); R5 contract W4: under -depth the depth-0 entry is held back until the walker is exhausted (walkdir yields a followed root link before its contents); R1 dispatch-table rows: -depth/-d/-delete set Config.depth_first=true, nothing else writes it (field writers), WalkDir::contents_first receives it; -sorted sets sorted_output and installs sort_by(a.file_name().cmp(b.file_name())) under it; "
                    "R2 who-may-call: only PruneMatcher marks the skip flag, under file_type().is_dir() of the entry, always true; flag per-entry (MatcherIO::new inside the loop, flag written only by the marker and the constructor); "
                    "R3 skip_current_dir on the walk iterator iff should_skip_current_dir() after matches in the same iteration; R4 walkdir contract W2: that call is guarded by !depth_first",
     "decides": "R4 also: skip_current_dir only for a directory the walk has entered (contract W5: -xdev directories on another device are yielded but not entered); the code paths by which order and pruning are configured and applied, for every expression and tree",
